@@ -3,6 +3,7 @@ package main
 import (
 	"fmt"
 	"go/types"
+	"regexp"
 	"sort"
 	"strings"
 
@@ -33,31 +34,32 @@ type mapIter struct {
 
 // State is one symbolic path state.
 type State struct {
-	frames  []*Frame
-	cells   map[*Cell]*Value
-	promo   map[*Cell]string // promoted cells -> heap ref
-	heap    map[string]string
-	epoch   string
-	ghost   map[string]*Value
-	pc      []string
-	decls   []string
-	cut     map[*ssa.BasicBlock]bool
-	written map[string]bool
-	wcells  map[*Cell]bool
-	boxes   map[string]*Value
-	iters   map[string]*mapIter
-	allocT  string
-	locks   string // SMT term: Array Int Int (0 none, 1 read, 2 write)
-	notes   []string
-	dead    bool
-	freshRefs []string
-	trace   []string
-	curBlock *ssa.BasicBlock
-	specHeap *specInst // non-nil while evaluating a spec function body: heap arrays are formal parameters
+	frames     []*Frame
+	cells      map[*Cell]*Value
+	promo      map[*Cell]string // promoted cells -> heap ref
+	heap       map[string]string
+	epoch      string
+	epochChain []epochRec // partial havocs: keys of the excepted packages keep the array of the previous epoch
+	ghost      map[string]*Value
+	pc         []string
+	decls      []string
+	cut        map[*ssa.BasicBlock]bool
+	written    map[string]bool
+	wcells     map[*Cell]bool
+	boxes      map[string]*Value
+	iters      map[string]*mapIter
+	allocT     string
+	locks      string // SMT term: Array Int Int (0 none, 1 read, 2 write)
+	notes      []string
+	dead       bool
+	freshRefs  []string
+	trace      []string
+	curBlock   *ssa.BasicBlock
+	specHeap   *specInst // non-nil while evaluating a spec function body: heap arrays are formal parameters
 }
 
 func (st *State) clone() *State {
-	n := &State{epoch: st.epoch, allocT: st.allocT, locks: st.locks, specHeap: st.specHeap, curBlock: st.curBlock}
+	n := &State{epoch: st.epoch, epochChain: st.epochChain, allocT: st.allocT, locks: st.locks, specHeap: st.specHeap, curBlock: st.curBlock}
 	n.frames = make([]*Frame, len(st.frames))
 	for i, f := range st.frames {
 		nf := &Frame{fn: f.fn, depth: f.depth, regs: make(map[ssa.Value]*Value, len(f.regs))}
@@ -246,8 +248,8 @@ func (x *Exec) heapArr(st *State, key, sort string) string {
 		return nm
 	}
 	name := "H_" + smtName(key)
-	if st.epoch != "" {
-		name += "@" + st.epoch
+	if ep := st.epochOf(key); ep != "" {
+		name += "@" + ep
 	}
 	name = "|" + name + "|"
 	x.globalDecl(name, x.arrDecl(name, sort, strings.HasPrefix(key, "E|") || strings.HasPrefix(key, "MD|") || strings.HasPrefix(key, "MV|")))
@@ -282,6 +284,63 @@ func (x *Exec) havocHeapArr(st *State, key string) {
 }
 
 // havocAllHeap forgets everything about the heap (not ghost state, not local cells).
+type epochRec struct {
+	epoch, prev string
+	except      []string
+}
+
+// epochOf: the epoch whose array a not yet materialised key denotes (partial havocs leave excepted keys behind).
+func (st *State) epochOf(key string) string {
+	ep := st.epoch
+	for i := len(st.epochChain) - 1; i >= 0; i-- {
+		r := st.epochChain[i]
+		if r.epoch != ep || !keyInPkgs(key, r.except) {
+			break
+		}
+		ep = r.prev
+	}
+	return ep
+}
+
+var exceptRes = map[string]*regexp.Regexp{}
+
+// keyInPkgs: the heap array key belongs to a type declared in one of the packages (module-relative, dotted).
+func keyInPkgs(key string, pkgs []string) bool {
+	parts := strings.SplitN(key, "|", 3)
+	if len(parts) < 2 {
+		return false
+	}
+	for _, p := range pkgs {
+		re := exceptRes[p]
+		if re == nil {
+			re = regexp.MustCompile(`^(?:p_|_L[0-9]*_R)*` + regexp.QuoteMeta(p) + `\.[A-Za-z0-9_]+$`)
+			exceptRes[p] = re
+		}
+		if re.MatchString(parts[1]) {
+			return true
+		}
+	}
+	return false
+}
+
+// havocExcept: everything may have changed except the state of types declared in the given packages.
+func (x *Exec) havocExcept(st *State, pkgs []string) {
+	keep := map[string]string{}
+	for k, name := range st.heap {
+		if keyInPkgs(k, pkgs) {
+			keep[k] = name
+		} else {
+			st.written[k] = true
+		}
+	}
+	st.written["*|"+strings.Join(pkgs, ",")] = true
+	prev := st.epoch
+	x.nfresh++
+	st.epoch = fmt.Sprintf("e%d", x.nfresh)
+	st.epochChain = append(append([]epochRec(nil), st.epochChain...), epochRec{epoch: st.epoch, prev: prev, except: pkgs})
+	st.heap = keep
+}
+
 func (x *Exec) havocAllHeap(st *State) {
 	for k := range st.heap {
 		st.written[k] = true
@@ -290,6 +349,7 @@ func (x *Exec) havocAllHeap(st *State) {
 	st.heap = map[string]string{}
 	x.nfresh++
 	st.epoch = fmt.Sprintf("e%d", x.nfresh)
+	st.epochChain = nil
 }
 
 // pathInfo resolves a selection path from root type: returns leaf-path prefix and the type there.
